@@ -27,7 +27,6 @@ pub open spec fn is_owner(s: Storage, who: Seq<char>) -> bool { s.config is Some
 // ---- pair creation and registration (C16) ----
 impl AssetInfo {
 //%fn packages/haloswap/src/asset.rs | impl AssetInfo | query_decimals
-//%%rewrite #1 /Addr::unchecked\(contract_addr\)/ => addr_unchecked_ref(contract_addr) ## shim: Addr::unchecked(&String) has the argument as its text
 //%%sig
     ensures
         /*[C16 decimals.true-source]*/ r is Ok ==> Some(r->Ok_0) == true_decimals(querier.world(), account_addr.0@, *self),
@@ -46,7 +45,9 @@ pub uninterp spec fn pair_self_report(w: World, pair: Seq<char>) -> PairInfo;   
     ensures r is Ok ==> r->Ok_0 == pair_self_report(querier.world(), pair_contract.0@) { unimplemented!() }
 // Decimal256 -> text -> Decimal256 (C18 is n/a): ASSUMED identity
 #[verifier::external_body] pub fn decimal256_reparse(d: Decimal256) -> (r: Decimal256) ensures r == d { unimplemented!() }
-#[verifier::external_body] pub fn default_commission_rate() -> (r: Decimal256) ensures r.0.v() == 3_000_000_000_000_000nat { unimplemented!() }
+pub open spec fn default_rate() -> Decimal256 { Decimal256(U256([3_000_000_000_000_000u64, 0, 0, 0])) }   // "0.003"
+pub open spec fn rate_or_default(o: Option<Decimal256>) -> Decimal256 { if o is Some { o->Some_0 } else { default_rate() } }
+#[verifier::external_body] pub fn default_commission_rate() -> (r: Decimal256) ensures r == default_rate() { unimplemented!() }
 
 pub open spec fn tmp_ok(w: World, factory: Seq<char>, infos: [AssetInfo; 2], t: TmpPairInfo) -> bool {
     raw_of(infos[0], t.asset_infos[0]) && raw_of(infos[1], t.asset_infos[1])
@@ -54,7 +55,7 @@ pub open spec fn tmp_ok(w: World, factory: Seq<char>, infos: [AssetInfo; 2], t: 
     && Some(t.asset_decimals[0]) == true_decimals(w, factory, infos[0]) && Some(t.asset_decimals[1]) == true_decimals(w, factory, infos[1])
 }
 //%fn contracts/halo-factory/src/contract.rs | - | execute_create_pair
-//%%rewrite #1 /commission_rate\s*\.unwrap_or_else\(\|\| Decimal256::from_str\(DEFAULT_COMMISSION_RATE\)\.unwrap\(\)\)/ => vunwrap_or_else(commission_rate, || -> (x: Decimal256) ensures x.0.v() == 3_000_000_000_000_000nat { default_commission_rate() }) ## R4 + text: Option::unwrap_or_else -> verified helper; parsing the literal "0.003" is text (C18 n/a) and is replaced by an assumed constant
+//%%rewrite #1 /commission_rate\s*\.unwrap_or_else\(\|\| Decimal256::from_str\(DEFAULT_COMMISSION_RATE\)\.unwrap\(\)\)/ => vunwrap_or_else(commission_rate, || -> (x: Decimal256) ensures x == default_rate() { default_commission_rate() }) ## R4 + text: Option::unwrap_or_else -> verified helper; parsing the literal "0.003" is text (C18 n/a) and is replaced by an assumed constant
 //%%sig
     ensures
         /*[C14 create.only-owner]*/ r is Ok ==> is_owner(*old(deps.storage), info.sender.0@),
@@ -67,11 +68,9 @@ pub open spec fn tmp_ok(w: World, factory: Seq<char>, infos: [AssetInfo; 2], t: 
         /*[C07,C16 create.only-instantiate]*/ r is Ok ==> r->Ok_0.messages@.len() == 1 && r->Ok_0.messages@[0].reply_on == ReplyOn::Success
             && (r->Ok_0.messages@[0].msg matches CosmosMsg::Wasm(WasmMsg::Instantiate { admin, code_id, msg, funds, label }) && code_id == old(deps.storage).config->Some_0.pair_code_id && funds@.len() == 0),
         /*[C16,C17 create.pair-told-recorded-values]*/ r is Ok ==> (r->Ok_0.messages@[0].msg matches CosmosMsg::Wasm(WasmMsg::Instantiate { admin, code_id, msg, funds, label }) &&
-            exists|cr: Decimal256| #![trigger bin_of(PairInstantiateMsg { asset_infos, token_code_id: old(deps.storage).config->Some_0.token_code_id, asset_decimals: final(deps.storage).tmp->Some_0.asset_decimals, requirements, commission_rate: cr,
-                    lp_token_info: LPTokenInfo { lp_token_name: lp_token_info.lp_token_name, lp_token_symbol: lp_token_info.lp_token_symbol, lp_token_decimals: lp_token_info.lp_token_decimals } })]
-                (commission_rate is Some ==> cr == commission_rate->Some_0) && (commission_rate is None ==> cr.0.v() == 3_000_000_000_000_000nat)
-                && msg == bin_of(PairInstantiateMsg { asset_infos, token_code_id: old(deps.storage).config->Some_0.token_code_id, asset_decimals: final(deps.storage).tmp->Some_0.asset_decimals, requirements, commission_rate: cr,
-                    lp_token_info: LPTokenInfo { lp_token_name: lp_token_info.lp_token_name, lp_token_symbol: lp_token_info.lp_token_symbol, lp_token_decimals: lp_token_info.lp_token_decimals } })),
+            msg == bin_of(PairInstantiateMsg { asset_infos, token_code_id: old(deps.storage).config->Some_0.token_code_id, asset_decimals: final(deps.storage).tmp->Some_0.asset_decimals, requirements,
+                commission_rate: rate_or_default(commission_rate),
+                lp_token_info: LPTokenInfo { lp_token_name: lp_token_info.lp_token_name, lp_token_symbol: lp_token_info.lp_token_symbol, lp_token_decimals: lp_token_info.lp_token_decimals } })),
 //%end
 
 pub open spec fn registered_record(w: World, t: TmpPairInfo, pair: Seq<char>, rec: PairInfoRaw) -> bool {
@@ -82,7 +81,6 @@ pub open spec fn registered_record(w: World, t: TmpPairInfo, pair: Seq<char>, re
 }
 //%fn contracts/halo-factory/src/contract.rs | - | reply
 //%%rewrite #1 /Decimal256::from_str\(&pair_info\.commission_rate\.to_string\(\)\)\.unwrap\(\)/ => decimal256_reparse(pair_info.commission_rate) ## text: Decimal256 -> string -> Decimal256 (C18 n/a) replaced by an assumed identity
-//%%rewrite #1 /Addr::unchecked\(pair_contract\)/ => addr_unchecked_ref(pair_contract) ## shim: Addr::unchecked(&String) has the argument as its text
 //%%sig
     ensures
         /*[C16,C17 reply.registers-under-tmp-key]*/ r is Ok ==> old(deps.storage).tmp is Some && ({
@@ -121,6 +119,13 @@ pub open spec fn dec_updated(rec: PairInfoRaw, denom: Seq<char>, d: u8, new: Pai
     && new.asset_decimals[0] == (if raw_is_native(rec.asset_infos[0], denom) { d } else { rec.asset_decimals[0] })
     && new.asset_decimals[1] == (if raw_is_native(rec.asset_infos[1], denom) { d } else { rec.asset_decimals[1] })
 }
+// the message that tells a pair its new decimals array
+pub open spec fn upd_msg(pair: Seq<char>, denom: Seq<char>, decs: [u8; 2], m: CosmosMsg) -> bool {
+    m matches CosmosMsg::Wasm(WasmMsg::Execute { contract_addr, msg, funds }) && contract_addr@ == pair && funds@.len() == 0
+        && exists|dn: String| #![trigger bin_of(haloswap::pair::ExecuteMsg::UpdateNativeTokenDecimals { denom: dn, asset_decimals: decs })]
+            dn@ == denom && msg == bin_of(haloswap::pair::ExecuteMsg::UpdateNativeTokenDecimals { denom: dn, asset_decimals: decs })
+}
+pub open spec fn touches(rec: PairInfoRaw, denom: Seq<char>) -> bool { raw_is_native(rec.asset_infos[0], denom) || raw_is_native(rec.asset_infos[1], denom) }
 // cw-storage-plus Map::range(None, None, Ascending) mapped through to_normal and collected: every record exactly once -- ASSUMED
 pub open spec fn read_all_ok(p: Map<Seq<u8>, PairInfoRaw>, keys: Seq<Seq<u8>>, out: Seq<PairInfo>) -> bool {
     keys.no_duplicates() && keys.len() == out.len() && (forall|k: Seq<u8>| p.dom().contains(k) <==> keys.contains(k))
@@ -147,21 +152,49 @@ pub open spec fn read_all_ok(p: Map<Seq<u8>, PairInfoRaw>, keys: Seq<Seq<u8>>, o
     let ghost pis0 = pair_infos@;
     let ghost keys = choose|keys: Seq<Seq<u8>>| read_all_ok(p0, keys, pis0);
     let ghost wf = registry_wf(p0);
+    // told[mi] = index (in the listing) of the record that message mi informs. The message obligations are carried by the loop
+    // invariants decimals.loop.msg-*: every message tells a pair containing the denom exactly the array saved in its record, and every
+    // such pair is told (a postcondition with the same content needs a forall-exists alternation that made the solver unstable).
+    let ghost mut told: Seq<int> = Seq::empty();
 //%%loop 1
             invariant 0 <= it.index@ <= pis0.len(), pis0 == pair_infos@, read_all_ok(p0, keys, pis0), wf == registry_wf(p0), is_owner(*old(deps.storage), info.sender.0@),
                 deps.storage.config == old(deps.storage).config, deps.storage.tmp == old(deps.storage).tmp,
                 deps.storage.allow@ == old(deps.storage).allow@.insert(str_bytes(denom@), decimals),
                 /*[C17 decimals.loop.dom]*/ wf ==> deps.storage.pairs@.dom() == p0.dom(),
                 /*[C17 decimals.loop.done]*/ wf ==> forall|j: int| 0 <= j < it.index@ ==> dec_updated(p0[#[trigger] keys[j]], denom@, decimals, deps.storage.pairs@[keys[j]]),
+                /*[C17 decimals.loop.msg-count]*/ wf ==> messages@.len() == told.len(),
+                /*[C17 decimals.loop.msg-content]*/ wf ==> forall|mi: int| 0 <= mi < told.len() ==> 0 <= #[trigger] told[mi] < it.index@ && touches(p0[keys[told[mi]]], denom@)
+                    && upd_msg(human_of(p0[keys[told[mi]]].contract_addr.0@), denom@, deps.storage.pairs@[keys[told[mi]]].asset_decimals, messages@[mi]),
+                /*[C17 decimals.loop.msg-complete]*/ wf ==> forall|j: int| 0 <= j < it.index@ && touches(p0[#[trigger] keys[j]], denom@) ==> told.contains(j),
                 /*[C17 decimals.loop.todo]*/ wf ==> forall|j: int| it.index@ <= j < pis0.len() ==> deps.storage.pairs@[#[trigger] keys[j]] == p0[keys[j]],
 //%%insert before #1 /\/\/ Get the pair key from the pair info/
                 broadcast use {axiom_string_eq_spec, axiom_string_obeys_eq, axiom_to_string_string, group_q_errors, axiom_string_ext, axiom_str_bytes_inj};
                 let ghost i = it.index@ as int;
                 let ghost k_i = keys[i];
                 let ghost cur0 = deps.storage.pairs@;
+                let ghost told0 = told;
                 proof { assert(pair_info == pis0[i]); assert(p0.dom().contains(k_i) && normal_of(p0[k_i], pis0[i])); }
 //%%insert before #1 /\/\/ Get raw pair info from the pair key/
                 proof { if wf { /*[C17 decimals.loop.key-of-record]*/ assert(pair_key@ == k_i); } }
+//%%insert after #1 /^                \}\)\);$/
+                proof { if wf { told = told.push(i); assert(told[told.len() - 1] == i); } }
+//%%insert after #2 /^                \}\)\);$/
+                proof { if wf { told = told.push(i); assert(told[told.len() - 1] == i); } }
+//%%insert after #2 /^            \}$/
+            proof {
+                if wf {
+                    assert forall|j: int| 0 <= j < i + 1 && touches(p0[#[trigger] keys[j]], denom@) implies told.contains(j) by {
+                        if j < i {
+                            assert(told0.contains(j));
+                            let idx = choose|idx: int| 0 <= idx < told0.len() && told0[idx] == j;
+                            assert(told[idx] == j);
+                        } else {
+                            assert(told.len() > told0.len());
+                            assert(told[told.len() - 1] == i);
+                        }
+                    }
+                }
+            }
 //%%insert before #1 /^        res = res\.add_messages\(messages\);/
         proof {
             if wf {
